@@ -187,9 +187,10 @@ class FcpV2:
             return closure
 
         remove_none_fields = filter_tree(lambda k, v: v is not None)
-        remove_meta = filter_tree(lambda k, v: k != "meta")
 
-        return remove_meta(remove_none_fields(serde.to_dict(self)))
+        # node metadata is skipped by the nodes themselves; filtering every key
+        # called "meta" here also dropped extension fields of that name
+        return remove_none_fields(serde.to_dict(self))
 
     def reflection(self) -> Dict[str, Any]:
         """Reflection."""
